@@ -56,7 +56,7 @@ _whole.install(globals(), "C02",
                note="Object identity / aliasing is a runtime matter the Gallina model cannot express; it is covered only by the recorder's re-hashing (partial). Local search: the pair (x, fun) "
                     "scipy hands to the callback is checked against the objective by the monitor (contract X5). " + _whole.HIST_NOTE,
                technique="Coq invariant of the history machine over all event streams + vm_compute trace replay + re-evaluation monitor on real runs",
-               front_ends=["popops", "ctor"], quick=200, thorough=5000, nontrivial=nontrivial, machine_replay=False, hist_replay=True, extra_checks=[cache_pairs, pop_components],
+               front_ends=["popops", "ctor", "driver"], front_end_filter={"driver": ("local_deme.py", "LocalDeme")}, driver_text=False, quick=200, thorough=5000, nontrivial=nontrivial, machine_replay=False, hist_replay=True, extra_checks=[cache_pairs, pop_components],
                forces=[(3, {"cap_evals": 900}), (1, {"cap_evals": 900, "height": 2, "engines": ["DE", "Local"]}), (1, {"cap_evals": 900, "height": 2, "engines": ["SHADE", "DE"]}),
                        (1, {"cap_evals": 900, "height": 3, "per_level_problems": True, "wrappers": "none"}), (1, {"cap_evals": 900, "height": 2, "per_level_problems": True, "wrappers": "counting", "engines": ["SEA", "DE"]}),
                        (1, {"cap_evals": 900, "height": 2, "engines": ["SEA", "Local"], "objective_kind": "linear", "levels_patch": [{}, {"method": "BFGS", "maxiter": 8}]}),
